@@ -17,6 +17,11 @@ func (d DPT_28001) Pack() []byte {
 }
 
 func (d *DPT_28001) Unpack(data []byte) error {
+	// The payload needs at least the leading byte and the terminating NUL.
+	if len(data) < 2 {
+		return ErrInvalidLength
+	}
+
 	var buf = data[1 : len(data)-1]
 
 	*d = DPT_28001(buf)
